@@ -467,14 +467,62 @@ Definition errv := (N * N)%type.
 Definition errv_eqb (a b : errv) : bool := N.eqb (fst a) (fst b) && N.eqb (snd a) (snd b).
 Definition errv_has_err (a : errv) : bool := negb (N.eqb (fst a) 0%N).
 
+(* Observed steps, monomorphic so that the generated case files elaborate quickly. *)
+Inductive mstep :=
+| MAdd (k v : N) (b : bool)
+| MAddOrGet (k v r : N) (b : bool)                  (* f() = v, returned (r, b) *)
+| MSet (k v : N)
+| MGet (k r : N)
+| MWait (k v : N) (oc : option N) (first : bool)    (* GetOrWait *)
+| MContains (k : N) (b : bool)
+| MValues (l : list N)
+| MValuesShard (i : N) (l : list N).
+
+Definition mstep_obs (fl : bool) (x : mstep * list bool) : aop N * ares N * option (list bool) :=
+  let o := if fl then Some (snd x) else None in
+  match fst x with
+  | MAdd k v b => (AAdd k v, ABool b, o)
+  | MAddOrGet k v r b => (AAddOrGet k v, ALazy r b, o)
+  | MSet k v => (ASet k v, AUnit, o)
+  | MGet k r => (AGet k, AVal r, o)
+  | MWait k v oc f => (AGetOrWait k, AWait (v, oc, f), o)
+  | MContains k b => (AContains k, ABool b, o)
+  | MValues l => (AValues, AVals l, o)
+  | MValuesShard i l => (AValuesShard i, AVals l, o)
+  end.
+
+(* ErrMap[int,int]: values are errV{Err, Val} = (error code, value) *)
+Inductive estep :=
+| EAdd (k v : N) (b : bool)
+| EAddOrGet (k v re rv : N) (b : bool)              (* returned (rv, b, error re) *)
+| ESet (k v : N)
+| ESetError (k e : N)
+| EGet (k re rv : N)
+| EGetOrSet (k fe fv : N) (r : option (N * N * bool)).   (* f() = (fv, fe); None = blocked, Some (re, rv, f ran) *)
+
+Definition estep_obs (x : estep) : aop errv * ares errv * option (list bool) :=
+  match x with
+  | EAdd k v b => (AAdd k (0%N, v), ABool b, None)
+  | EAddOrGet k v re rv b => (AAddOrGet k (0%N, v), ALazy (re, rv) b, None)
+  | ESet k v => (ASet k (0%N, v), AUnit, None)
+  | ESetError k e => (ASet k (e, 0%N), AUnit, None)
+  | EGet k re rv => (AGet k, AVal (re, rv), None)
+  | EGetOrSet k fe fv r =>
+      (AGetOrSet k (fe, fv),
+       match r with Some (re, rv, c) => AGos (re, rv) c | None => ABlocked end, None)
+  end.
+
 Inductive case :=
-| CMap (nsh : nat) (shards : list (key * N)) (h : list (aop N * ares N * option (list bool)))
-    (* a sequential history of Map[int,int] (or the linearisation found for a concurrent one) *)
-| CErr (nsh : nat) (shards : list (key * N)) (h : list (aop errv * ares errv * option (list bool))).
-    (* a sequential history of ErrMap[int,int]; the value is errV{Err, Val} *)
+| CMap (nsh : nat) (shards : list (N * N)) (flags : bool) (h : list (mstep * list bool))
+    (* a sequential history of Map[int,int] (or the linearisation found for a concurrent one);
+       flags: the list next to each step says which observed channels are closed after it *)
+| CErr (nsh : nat) (shards : list (N * N)) (h : list estep).
+    (* a sequential history of ErrMap[int,int] *)
 
 Definition check (c : case) : bool :=
   match c with
-  | CMap nsh shards h => check_hist N 0%N (fun _ => false) N.eqb nsort nsh shards h
-  | CErr nsh shards h => check_hist errv (0%N, 0%N) errv_has_err errv_eqb (fun l => l) nsh shards h
+  | CMap nsh shards fl h =>
+      check_hist N 0%N (fun _ => false) N.eqb nsort nsh shards (map (mstep_obs fl) h)
+  | CErr nsh shards h =>
+      check_hist errv (0%N, 0%N) errv_has_err errv_eqb (fun l => l) nsh shards (map estep_obs h)
   end.
